@@ -108,6 +108,8 @@ def hyp_all(groups, name, pred, out):
 # ------------------------------------------------------------------------------------------------
 #  z3 translation
 
+CROSSCHECK = [int(os.environ.get('VERIF_CROSSCHECK', '0') or 0)]    # seconds of cvc5 budget per proved leaf (0 = off)
+NORMALISE = [True]   # identify function applications whose arguments are equal as rational functions (normal.py)
 USE_UF = [False]     # per-obligation switch: real uninterpreted functions (congruence) instead of one variable per
                      # syntactically distinct application (cheaper, sound for proving, weaker hypotheses)
 
@@ -119,6 +121,8 @@ class Z3Real:
         self.iatoms = {}
         self.fapps = {}
         self.funcs = {}
+        from .normal import Classes
+        self.classes = Classes()      # applications with provably equal arguments share one variable (normal.py)
 
     def var(self, node):
         _, name, idx = node.node
@@ -188,6 +192,11 @@ class Z3Real:
                 r = z3.If(memo[n[1]], memo[n[2]], memo[n[3]])
             elif t == 'f':
                 k = (n[1],) + tuple(id(a) for a in n[2:])
+                if not USE_UF[0] and NORMALISE[0]:
+                    try:
+                        k = (n[1],) + tuple(('cls', self.classes.cls(a)) for a in n[2:])
+                    except Exception:      # noqa: BLE001  -- too big / unsupported: fall back to syntactic identity
+                        k = (n[1],) + tuple(id(a) for a in n[2:])
                 if USE_UF[0]:
                     # uninterpreted function application (congruence is decided by the solver)
                     fn = self.funcs.get((n[1], len(n) - 2))
@@ -308,14 +317,73 @@ def assume_relation(e, a, b, rel):
     return memo[e]
 
 
+def abstract_fapps(exprs):
+    """Ackermannisation at the term level: every application of an uninterpreted function is replaced by one real
+    variable per class of (function name, arguments equal as rational functions -- fvverif/normal.py).  Done once,
+    BEFORE any case split, so that the sign-splitting rewrites cannot make two equal arguments look different."""
+    from .normal import Classes
+    cl = Classes()
+    names = {}
+    memo = IdDict()
+    out = []
+    for e in exprs:
+        for x in walk(e):
+            if x in memo:
+                continue
+            n = x.node
+            t = n[0]
+            if t in ('c', 'v', 'i', 'b', 'ic'):
+                memo[x] = x
+            elif t == 'cmp':
+                memo[x] = B.cmp(n[1], memo[n[2]], memo[n[3]])
+            elif t == '+':
+                memo[x] = memo[n[1]] + memo[n[2]]
+            elif t == '*':
+                memo[x] = memo[n[1]] * memo[n[2]]
+            elif t == '/':
+                memo[x] = memo[n[1]] / memo[n[2]]
+            elif t == 'neg':
+                memo[x] = -memo[n[1]]
+            elif t == 'pow':
+                memo[x] = memo[n[1]] ** n[2]
+            elif t == 'ite':
+                memo[x] = R.ite(memo[n[1]], memo[n[2]], memo[n[3]])
+            elif t == 'f':
+                try:
+                    k = (n[1],) + tuple(cl.cls(a) for a in n[2:])
+                except Exception:     # noqa: BLE001 -- too big / unsupported: syntactic identity of the arguments
+                    k = (n[1],) + tuple(('id', id(a)) for a in n[2:])
+                v = names.get(k)
+                if v is None:
+                    v = R.var('%s!%d' % (n[1], len(names)))
+                    names[k] = v
+                memo[x] = v
+            elif t == 'and':
+                memo[x] = memo[n[1]] & memo[n[2]]
+            elif t == 'or':
+                memo[x] = memo[n[1]] | memo[n[2]]
+            elif t == 'not':
+                memo[x] = ~memo[n[1]]
+            else:
+                raise AssertionError(n)
+        out.append(memo[e])
+    return out
+
+
 def check_leaf(claim, hyps, region_conds=(), timeout_ms=20000, want_model=True, quick_ms=1500, depth=0, maxdepth=12):
     """adaptive: try the solver with a short budget; on timeout split on the sign of one compared pair
     (trichotomy  a<b | a==b | a>b) and recurse; the last level gets the full budget."""
     if claim.node == ('b', True):
         return 'proved', 'trivial', None
+    if depth == 0 and not USE_UF[0] and NORMALISE[0]:
+        hyps = list(hyps)
+        allx = abstract_fapps([claim] + hyps)
+        claim, hyps = allx[0], [h for h in allx[1:] if h.node != ('b', True)]
+        if claim.node == ('b', True):
+            return 'proved', 'trivial', None
     pairs = guard_pairs([claim]) if depth < maxdepth else []
     budget = quick_ms if pairs else timeout_ms
-    st, be, model = _check_once(claim, hyps, region_conds, budget, want_model)
+    st, be, model = _check_once(claim, hyps, region_conds, budget, want_model, last_resort=not pairs)
     if st != 'unknown' or not pairs:
         return st, be, model
     # prefer a pair that occurs in the claim's ite guards most often
@@ -338,7 +406,7 @@ def _raw_cmp(rel, a, b):
     return _mk(B, ('cmp', rel, a, b))
 
 
-def _check_once(claim, hyps, region_conds=(), timeout_ms=20000, want_model=True):
+def _check_once(claim, hyps, region_conds=(), timeout_ms=20000, want_model=True, last_resort=True):
     """validity of (hyps -> claim).  returns ('proved', backend, None) | ('refuted', backend, model) | ('unknown', why, None)
     model: {'vars': [(name, idx tuple of IExpr, Fraction)], 'fapps': [...]}"""
     if claim.node == ('b', True):
@@ -361,6 +429,16 @@ def _check_once(claim, hyps, region_conds=(), timeout_ms=20000, want_model=True)
                 LAST_PROVED_SMT[0] = s.to_smt2()[:1800]
             except Exception:     # noqa: BLE001
                 pass
+        if CROSSCHECK[0]:
+            # thorough tier: every unsat is re-derived by a second, different back end (cvc5, cylindrical-algebraic
+            # coverings); a disagreement is a checker fault, a timeout leaves the verdict with z3 alone
+            r2 = _cvc5_check(s, timeout_s=CROSSCHECK[0])
+            if r2 == 'unsat':
+                return 'proved', 'z3+cvc5', None
+            if r2 == 'sat':
+                STATS['disagreements'] = STATS.get('disagreements', 0) + 1
+                return 'unknown', 'BACKEND-DISAGREEMENT z3:unsat cvc5:sat', None
+            return 'proved', 'z3(cvc5:%s)' % ('timeout' if r2.startswith(('unknown', 'timeout')) else 'n/a'), None
         return 'proved', 'z3', None
     if res == z3.sat:
         if not want_model:
@@ -382,30 +460,45 @@ def _check_once(claim, hyps, region_conds=(), timeout_ms=20000, want_model=True)
             iv[a] = _val_to_fraction(m.eval(zv, model_completion=True))
         return 'refuted', 'z3', {'vars': vals, 'fapps': fv, 'iatoms': iv}
     STATS['unknown'] += 1
+    if not last_resort:
+        return 'unknown', 'z3:%s' % s.reason_unknown(), None
     # second back end: cvc5 on the SMT-LIB text
-    r2 = _cvc5_check(s)
+    r2 = _cvc5_check(s, timeout_s=max(5, timeout_ms // 1000))
     if r2 == 'unsat':
         return 'proved', 'cvc5', None
     return 'unknown', 'z3:%s cvc5:%s' % (s.reason_unknown(), r2), None
 
 
 def _cvc5_check(solver, timeout_s=30):
+    """the same query (SMT-LIB text of the z3 solver) decided by cvc5 1.4 through its Python API (the Debian CLI build
+    has no libpoly, hence no --nl-cov)"""
     t0 = time.time()
     STATS['cvc5_calls'] += 1
     try:
+        import cvc5
         txt = ('(set-logic QF_UFNRA)\n' if USE_UF[0] else '(set-logic QF_NRA)\n') + solver.to_smt2()
         txt = txt.replace('(set-info :status unknown)', '')
-        with tempfile.NamedTemporaryFile('w', suffix='.smt2', delete=False) as f:
-            f.write(txt)
-            path = f.name
+        tm = cvc5.TermManager()
+        slv = cvc5.Solver(tm)
+        slv.setOption('tlimit-per', str(int(timeout_s * 1000)))
         try:
-            out = subprocess.run(['/usr/bin/cvc5', '--tlimit=%d' % (timeout_s * 1000), '--nl-cov', path],
-                                 capture_output=True, text=True, timeout=timeout_s + 5)
-            ans = out.stdout.strip().splitlines()
-            return ans[0] if ans else 'error:' + out.stderr[:200]
-        finally:
-            os.unlink(path)
+            slv.setOption('nl-cov', 'true')
+        except Exception:      # noqa: BLE001
+            pass
+        ps = cvc5.InputParser(slv)
+        ps.setStringInput(cvc5.InputLanguage.SMT_LIB_2_6, txt, 'leaf')
+        sm = ps.getSymbolManager()
+        ans = None
+        while True:
+            c = ps.nextCommand()
+            if c.isNull():
+                break
+            o = c.invoke(slv, sm).strip()
+            if o in ('sat', 'unsat', 'unknown'):
+                ans = o
+        return ans or 'error:no answer'
     except Exception as e:   # noqa: BLE001
-        return 'error:%s' % e
+        return 'error:%s' % str(e)[:200]
     finally:
         STATS['cvc5_seconds'] += time.time() - t0
+
